@@ -1,3 +1,4 @@
+import os, sys
 """CFG utilities and expression resolution over exported MIR bodies."""
 import json
 from functools import lru_cache
@@ -8,11 +9,18 @@ def place_key(p):
 
 
 class Body:
+    TOUCHED_SHAPE = set()   # ... by a rule other than the risky-site inventory (E2)
     TOUCHED = set()   # defs of every body a rule looked at in this run (evidence: what was analysed)
 
     def __init__(self, j):
         self.j = j
         Body.TOUCHED.add((j.get("krate"), j["def"]))
+        try:
+            mod = os.path.basename(sys._getframe(1).f_code.co_filename)[:-3]
+        except Exception:
+            mod = "?"
+        if not mod.startswith("e2_"):
+            Body.TOUCHED_SHAPE.add((j.get("krate"), j["def"]))
         self.id = j["id"]
         self.defp = j["def"]
         self.blocks = j["blocks"]
